@@ -280,7 +280,13 @@ udp_pipe_start(udp_pipe *p, udp_ep *ep, const nng_sockaddr *sa)
 	p->expire = now +
 	    (p->dialer ? ep->conn_expire : UDP_PIPE_TIMEOUT(p));
 
-	return (udp_add_pipe(ep, p));
+	nng_err rv;
+	if ((rv = udp_add_pipe(ep, p)) != NNG_OK) {
+		// never registered (and not counted in peer_count), so
+		// udp_remove_pipe has nothing to undo for this pipe
+		p->id = 0;
+	}
+	return (rv);
 }
 
 static const nng_sockaddr *
@@ -764,6 +770,8 @@ udp_recv_creq(udp_ep *ep, udp_sp_msg *creq, nng_sockaddr *sa)
 	if (udp_pipe_start(p, ep, sa) != NNG_OK) {
 		udp_send_disc(ep, p, DISC_NOBUF);
 		nni_pipe_close(p->npipe);
+		// drop our reference, the pipe never reached the socket
+		nni_pipe_rele(p->npipe);
 		return;
 	}
 
@@ -1479,6 +1487,8 @@ udp_resolv_cb(void *arg)
 	if ((rv = udp_pipe_start(p, ep, &ep->peer_sa)) != NNG_OK) {
 		nni_aio_list_remove(aio);
 		nni_pipe_close(p->npipe);
+		// drop our reference, the pipe never reached the socket
+		nni_pipe_rele(p->npipe);
 		nni_mtx_unlock(&ep->mtx);
 		nni_aio_finish_error(aio, rv);
 		return;
